@@ -52,6 +52,7 @@ DEFAULT_CFG = dict(
     straggle_num=0,  # straggler probability numerator over 64
     zombie_num=0,  # zombie re-execution probability numerator over 16
     zombie_late=0,  # 1: zombies may land far in the future (after downstream ops)
+    shuffle_writes=0,  # spread mode: a task's buffered writes become durable in a seeded order
     max_steps=400_000,
     max_vtime=1.0e7,
 )
@@ -344,6 +345,11 @@ class SimPool:
         else:  # spread
             writes = job.writes
             job.writes = []
+            if sim.cfg["shuffle_writes"] and len(writes) > 1:
+                # only writes to distinct keys may be reordered
+                if len({(id(w[0]), w[1]) for w in writes}) == len(writes):
+                    writes = sim.tape.shuffle(writes)
+                    sim.count("task_writes_shuffled")
             tc = t + dur
             for w in writes:
                 sim.schedule(tc, (lambda w=w: self._commit(job, [w])), "commit")
